@@ -10,6 +10,10 @@ mod ws_store;
 mod validator;
 mod accesslist;
 mod udp_sys;
+mod bencode;
+mod http_sys;
+mod ws_sys;
+mod export_crash;
 
 use crate::core::*;
 use std::collections::BTreeMap;
@@ -45,6 +49,9 @@ macro_rules! dispatch {
             "validator" => $f::<validator::Validator>($($args),*),
             "accesslist" => $f::<accesslist::AccessListHarness>($($args),*),
             "udp_sys" => $f::<udp_sys::UdpSys>($($args),*),
+            "http_sys" => $f::<http_sys::HttpSys>($($args),*),
+            "ws_sys" => $f::<ws_sys::WsSys>($($args),*),
+            "export_crash" => $f::<export_crash::ExportCrash>($($args),*),
             other => {
                 eprintln!("HARNESS-ERROR: unknown harness {:?}", other);
                 std::process::exit(2);
